@@ -224,6 +224,15 @@ class Ctx:
         with concurrent.futures.ThreadPoolExecutor(max_workers=NCPU) as ex:
             for path, rc, txt in ex.map(_eval_shard, [(p, timeout) for p in files]):
                 results[path] = (rc, txt)
+        stale = [p_ for p_ in files if results[p_][0] != 0 and ('inconsistent assumptions' in results[p_][1]
+                                                                  or 'Cannot find a physical path' in results[p_][1]
+                                                                  or 'bad version number' in results[p_][1])]
+        if stale:
+            # a compiled library was rebuilt (or removed) under the running check: re-make what the cases need, once
+            ensure_built([os.path.join('theories', r.replace('.', '/') + '.vo') for r in requires])
+            with concurrent.futures.ThreadPoolExecutor(max_workers=NCPU) as ex:
+                for path, rc, txt in ex.map(_eval_shard, [(p_, timeout) for p_ in stale]):
+                    results[path] = (rc, txt)
         self.coq_s += time.time() - t
         out = []
         for path, n in zip(files, bounds):
